@@ -73,6 +73,20 @@ def analyse(obs: Obs, prog):
     obs.add({"C22", "C01"}, "ADDR-UNIQUE", "StaticHandler.record/write", okw, derived=wrote, expected="self.traces[addr] = trace", where=W(SH, "record"))
     obs.add({"C22"}, "ADDR-UNIQUE", "StaticHandler.record/order", inline or (idx_if is not None and idx_w is not None and idx_if < idx_w), derived=f"test@{idx_if} write@{idx_w}", expected="test before write", where=W(SH, "record"))
 
+    # every write of the handlers' trace table goes through record (the only place the reuse test runs): no `self.traces[...] = ...` anywhere else
+    direct = []
+    for hn_ in list(HANDLERS) + ["StaticHandler"]:
+        Hc = prog.cls(hn_, MOD)
+        for mn_, mf_ in Hc.methods.items():
+            if hn_ == "StaticHandler" and mn_ == "record":
+                continue
+            for n_ in ast.walk(mf_):
+                tg = n_.targets if isinstance(n_, ast.Assign) else ([n_.target] if isinstance(n_, (ast.AugAssign, ast.AnnAssign)) else [])
+                for t_ in tg:
+                    if isinstance(t_, ast.Subscript) and ast.unparse(t_.value) == "self.traces":
+                        direct.append(f"{hn_}.{mn_}:{n_.lineno}")
+    obs.add({"C22", "C01"}, "RECORD-ONCE", "handlers/direct-trace-writes", not direct, construct="writes of self.traces outside StaticHandler.record", derived=str(direct) if direct else "none",
+            expected="sub-traces are stored by self.record(addr, tr) only, so a second visit of an address always reaches the AddressReuse test", where=W(SH, "record"))
     n_handlers = 0
     ys_index = {}
     for hname, spec in HANDLERS.items():
